@@ -99,6 +99,11 @@ def generate(plan) -> None:
             ops.append({"op": "cancel", "at": round(r.uniform(0, horizon), 3), "ref": r.randrange(n_ops)})
         for _ in range(r.choice([0, 0, 1])):
             ops.append({"op": "stall", "at": round(r.uniform(0, horizon), 3), "dur": r.choice([0.05, 0.6, 3.0])})
+    # (own stream) a request / write that is echoed by the dongle but not heard by the controller; and a caller that gives up
+    # just as the transfer it was queueing behind ends, i.e. around the instant it is handed the per-system lock
+    r2 = plan.rng("gen/x2")
+    k["p_unheard"] = 0.0 if ff else r2.choice([0.0, 0.0, 0.1, 0.3])
+    k["handover_cancel"] = (not ff) and r2.random() < 0.3
 
 
 def norm(s):
@@ -314,6 +319,16 @@ async def run_xfer(ctx) -> None:
 
     ctl.on_reply = on_reply
     ctl.reply_filter = reply_filter
+    n_tx = [0]
+
+    def unheard(ser_, frame, nth):
+        if quiet[0] or frame[37:41] not in (b"0404", b"0006") or frame[:2] not in (b"RQ", b" W"):
+            return False
+        n_tx[0] += 1
+        return bool(plan.decide(f"unheard/{frame[37:41].decode()}/{frame[46:60].decode()}/{n_tx[0]}",
+                                lambda rr: rr.random() < k("p_unheard", 0.0), False))
+
+    hub.unheard_policy = unheard
     gwy = await make_gateway(ctx, zones, k("dhw"))
     ser = hub.ports["/dev/sim0"]
     tcs = gwy.tcs
@@ -347,6 +362,28 @@ async def run_xfer(ctx) -> None:
         except Exception as err:  # noqa
             ent["out"] = ("exc", exc_sig(err), str(err)[:200])
         ent["ret"] = loop.time()
+        handover(o)
+
+    def handover(o_done) -> None:
+        """a transfer has just ended: whoever queues behind it gets the per-system lock within milliseconds -- a caller that gives
+        up right then is cancelled while it takes the lock"""
+        if not k("handover_cancel", False) or quiet[0]:
+            return
+        waiting = [i for i, e in results.items() if e["ret"] is None and e["op"]["zone"] != o_done["zone"]]
+        if not waiting:
+            return
+        d = plan.decide(f"handover/{o_done['id']}", lambda rr: ["cancel", rr.choice([0.0, 0.001, 0.003, 0.004, 0.006, 0.008, 0.012])]
+                        if rr.random() < 0.7 else ["no"], ["no"])
+        if d[0] != "cancel":
+            return
+
+        def cancel(i=waiting[0]):
+            t = tasks.get(i)
+            if t is not None and not t.done():
+                hub.count("caller_cancel_at_lock_handover")
+                t.cancel()
+
+        loop.call_later(d[1], cancel)
 
     # transfers for different zones run concurrently; the calls for one zone are made one after the other
     # (the statement quantifies over concurrent transfers for 2-3 zones, not two callers on one zone)
@@ -421,6 +458,13 @@ async def run_xfer(ctx) -> None:
             ctx.violate("C18", "exception", ent["out"][1], f"{o['op']} {o['zone']}: {ent['out']}")
         if o["op"] == "get" and took > o["timeout"] + 0.05 + stalls:
             ctx.violate("C18", "overran", "get", f"get_schedule({o['zone']}, timeout={o['timeout']}) took {took:.2f} s")
+        if ent["out"][0] == "ok" and o["op"] == "set":
+            # a write that reports success has been taken by the controller (it held that schedule at some instant of the call)
+            if not any(sv == ent.get("sched") and ent["call"] <= t <= ent["ret"] + 1e-9 for (t, sv) in history.get(o["zone"], [])):
+                ctx.violate("C18", "set_not_applied", "", f"set_schedule({o['zone']}) returned normally but the controller never "
+                            f"stored that schedule during the call (it holds {'another' if history.get(o['zone']) else 'no'} one)")
+            else:
+                ctx.probe("set_applied")
         if ent["out"][0] == "ok" and o["op"] == "get":
             got = ent["out"][1]
             z = o["zone"]
